@@ -300,7 +300,10 @@ fn apply(pp: &mut ParsedPacket, model: &MMsg, op: &Op, prop: &str) -> Result<Out
             let policy_ok = m.q.is_some() && (m.hdr[2] & 0x80 != 0 || (m.secs[0].is_empty() && m.secs[1].is_empty()));
             if !policy_ok { return Ok(Outcome { model: m, failed: false }); }
             let r = pp.rename_with_raw_names(t, s, *x);
-            match (r, model_rename(&m, t, s, *x)) {
+            let mut expect = model_rename(&m, t, s, *x);
+            // a target with well-formed labels that the parser's name policy rejects: if it ends up in the message the call must fail (C10)
+            if let Ok(mm) = &expect { if wire::parse_ref(&encode(mm)).is_none() { if r.is_ok() { return Err("rename returned a packet the parser rejects".into()); } expect = Err(()); } }
+            match (r, expect) {
                 (Ok(()), Ok(mm)) => { m = mm; }
                 (Ok(()), Err(())) => return Err("rename produced a packet although a rewritten name exceeds 255 bytes".into()),
                 (Err(e), Ok(_)) => return Err(format!("rename failed although every rewritten name fits: {}", e)),
@@ -383,7 +386,9 @@ pub fn replay(prop: &str, a: &[&str]) -> Result<(), String> {
             let m0 = match decode(&p) { Some(m) => m, None => return Ok(()) };
             let mut pp = DNSSector::new(p.clone()).unwrap().parse().map_err(|e| e.to_string())?;
             let r = pp.rename_with_raw_names(&t, &s, x);
-            match (r, model_rename(&m0, &t, &s, x)) {
+            let mut expect = model_rename(&m0, &t, &s, x);
+            if let Ok(mm) = &expect { if wire::parse_ref(&encode(mm)).is_none() { if r.is_ok() { return Err("rename returned a packet the parser rejects".into()); } expect = Err(()); } }
+            match (r, expect) {
                 (Ok(()), Ok(mm)) => {
                     let bytes = pp.packet.clone().ok_or("packet is None after rename")?;
                     let got = decode(&bytes).ok_or_else(|| format!("renamed packet is not accepted: {}", hex(&bytes)))?;
@@ -498,6 +503,24 @@ pub fn gen(prop: &str, r: &mut Rng, _filter: &str) -> Vec<String> {
             }
             vec![prop.into(), "cmp".into(), hex(&p)]
         }
+        "c07" if r.chance(1, 8) => {
+            // partial-label near-miss: the bytes of the source name occur at the END of a longer name but start INSIDE a label -- possible when the
+            // length byte of the source's first label is itself a legal host-name character ('-' = 45, '0'..'9' = 48..57)
+            let l = *r.pick(&[45u8, 48, 49, 50, 57]) as usize;
+            let ch = *r.pick(b"bxQ7");
+            let mut src = vec![l as u8]; src.extend(std::iter::repeat(ch).take(l)); src.extend_from_slice(&[3, b'c', b'o', b'm', 0]);
+            let pre = 1 + r.below((62 - l) as u64) as usize;          // characters in front, inside the same label
+            let mut near = vec![(pre + 1 + l) as u8]; near.extend(std::iter::repeat(b'a').take(pre)); near.extend_from_slice(&src);
+            let mut real = vec![3, b'w', b'w', b'w']; real.extend_from_slice(&src);
+            let mut q: Vec<u8> = vec![0, 9, 0x80, 0, 0, 1, 0, 2, 0, 0, 0, 0];
+            q.extend_from_slice(&near); q.extend_from_slice(&[0, 1, 0, 1]);
+            q.extend_from_slice(&[0xc0, 12, 0, 5, 0, 1, 0, 0, 0, 9]); q.push(0); q.push(real.len() as u8); q.extend_from_slice(&real);
+            q.extend_from_slice(&near); q.extend_from_slice(&[0, 2, 0, 1, 0, 0, 0, 9]); q.push(0); q.push(real.len() as u8); q.extend_from_slice(&real);
+            if wire::parse_ref(&q).is_none() { return vec![]; }
+            let t = gen_raw_name(r);
+            if t.len() <= 1 { return vec![]; }
+            vec![prop.into(), "ren".into(), hex(&q), hex(&t), hex(&src), r.below(2).to_string()]
+        }
         "c07" => {
             let m = wire::parse_ref(&p).unwrap();
             // pick a source from the names present (or a random one), at a random label depth
@@ -544,7 +567,10 @@ pub fn gen(prop: &str, r: &mut Rng, _filter: &str) -> Vec<String> {
                         4 => Op::SetIp(s, k, if r.chance(1, 2) { r.bytes(4) } else { r.bytes(16) }),
                         5 => Op::Uncompress(s, k),
                         6 => Op::Recompute,
-                        7 => Op::Rename(gen_raw_name(r), m.qname.clone(), r.chance(1, 2)),
+                        7 => { let mut t = gen_raw_name(r);
+                               // one time in three: a target with well-formed labels that the parser's name policy rejects (the call must fail cleanly)
+                               if t.len() > 2 && r.chance(1, 3) { let i = 1 + r.below(t[0] as u64) as usize; t[i] = *r.pick(&[b'.', b'\\', 7u8, 127, b'@']); }
+                               Op::Rename(t, m.qname.clone(), r.chance(1, 2)) }
                         8 => Op::SetFlags(r.next() as u32 | 0x8000),
                         9 => Op::SetTid(r.next() as u16),
                         10 => Op::SetRcode(r.next() as u8),
